@@ -1435,7 +1435,9 @@ class FortranFile:
             if self.parse_contains(line_no_comment, line_no, file_ast):
                 continue
             # Loop through tests
-            obj_read = self.get_fortran_definition(line)
+            # NOTE: without the trailing comment, which some of the readers would
+            # take for part of a name (`module procedure foo ! comment`)
+            obj_read = self.get_fortran_definition(line_no_comment)
             # Move to next line if nothing in the definition tests matches
             if obj_read is None:
                 continue
